@@ -371,6 +371,19 @@ def firstword_set(tier):
     return out
 
 
+def secondword_set(tier):
+    """SECOND body word from the type-changing vocabulary (a long date, a ZID, a time, a priority ... right after an
+    ordinary first word must not change the note's identity, dates, kind or priority); hole-less, grouped like firstword_set"""
+    out = []
+    for kind, pri in (("-", None), ("o", None), ("x", "P2")):
+        for layout in ("plain", "zid", "d6zid"):
+            for wi, w in enumerate(VOCAB):
+                it = Item(kind, pri=pri, layout=layout, lay={"zid": "240510#0S", "d6": "240612"}, words=["first", w, "rest"])
+                out.append(PageSpec("second-%s-%s-%d" % ({"-": "note"}.get(kind, "todo" + kind), layout, wi),
+                                    [("title", "title"), ("blank", None), ("item", it)]))
+    return out
+
+
 def legal_header_sequences(maxlen):
     """every legal sequence of section levels: H1 anywhere; H2 anywhere (before the first H1 it hangs off the page
     head); H3 only inside an open H2; H4 only inside an open H3"""
@@ -428,4 +441,4 @@ def section_set(tier):
 
 
 def all_specs(tier, seed):
-    return core_set(tier) + layout_set(tier) + multi_set(tier, seed) + section_set(tier) + firstword_set(tier)
+    return core_set(tier) + layout_set(tier) + multi_set(tier, seed) + section_set(tier) + firstword_set(tier) + secondword_set(tier)
